@@ -144,32 +144,64 @@ theorem resolveExprCore_rename (l r : Value) (op : Char) (mode : Mode) :
     simp only [renameValue_isAddress]
     split <;> rfl
 
+theorem symPost_rename (s : Value) : symPost (renameValue ρ s) = (symPost s).map (renameValue ρ) := by
+  cases s with
+  | address i m' => rfl
+  | numeric i h m' n =>
+    simp only [symPost, Value.isAddress, Value.isNumeric, renameValue, Bool.false_eq_true, if_false, if_true]
+    exact (numericOfInt_rename _ _ _).symm
+  | _ => rfl
+
+theorem renameTab_length (t : SymTab) : (renameTab ρ t).length = t.length := by
+  simp [renameTab]
+
+/-- `resolveF` (the fuel-indexed `resolve`, batch 4) commutes with an injective renaming -/
+theorem resolveF_rename (hinj : ∀ x y, ρ x = ρ y → x = y) (t : SymTab) : ∀ (n : Nat) (v : Value),
+    resolveF n (renameValue ρ v) (renameTab ρ t) = (resolveF n v t).map (renameValue ρ) := by
+  intro n
+  induction n with
+  | zero => intro v; rfl
+  | succ n ih =>
+    intro v
+    have hsym : ∀ name : Str, getSymF n (renameTab ρ t) (ρ name) = (getSymF n t name).map (renameValue ρ) := by
+      intro name
+      unfold getSymF
+      rw [get?_rename hinj]
+      cases hg : t.get? name with
+      | none => rfl
+      | some s =>
+        simp only [Option.map_some, renameValue_isExpression]
+        split
+        · exact ih s
+        · rfl
+    have hlook : ∀ x : Value, lookF n (renameTab ρ t) (renameValue ρ x) = (lookF n t x).map (renameValue ρ) := by
+      intro x
+      cases x with
+      | symbol name m => exact hsym name
+      | _ => rfl
+    cases v with
+    | symbol name m =>
+      simp only [renameValue]
+      rw [resolveF_symbol, resolveF_symbol, hsym]
+      cases getSymF n t name with
+      | error e => rfl
+      | ok s => exact symPost_rename s
+    | expr l r op mode ae =>
+      simp only [renameValue]
+      rw [resolveF_expr, resolveF_expr, hlook, hlook]
+      cases lookF n t l with
+      | error e => rfl
+      | ok l' =>
+        cases lookF n t r with
+        | error e => rfl
+        | ok r' => exact resolveExprCore_rename l' r' op mode
+    | _ => rfl
+
 /-- `Value.resolve` commutes with an injective renaming -/
 theorem resolve_rename (hinj : ∀ x y, ρ x = ρ y → x = y) (t : SymTab) (v : Value) :
     (renameValue ρ v).resolve (renameTab ρ t) = (v.resolve t).map (renameValue ρ) := by
-  cases v with
-  | symbol name m =>
-    simp only [renameValue, Value.resolve, get?_rename hinj]
-    cases hg : t.get? name with
-    | none => rfl
-    | some s =>
-      simp only [Option.map_some, renameValue_isAddress, renameValue_isNumeric]
-      cases s with
-      | address i m' => rfl
-      | numeric i h m' n =>
-        simp only [Value.isAddress, Value.isNumeric, renameValue, Bool.false_eq_true, if_false, if_true]
-        exact (numericOfInt_rename _ _ _).symm
-      | _ => rfl
-  | expr l r op mode ae =>
-    simp only [renameValue]
-    rw [resolve_expr_eq, resolve_expr_eq, lookV_rename hinj, lookV_rename hinj]
-    cases lookV t l with
-    | error e => rfl
-    | ok l' =>
-      cases lookV t r with
-      | error e => rfl
-      | ok r' => exact resolveExprCore_rename l' r' op mode
-  | _ => rfl
+  rw [resolve_eq, resolve_eq, renameTab_length]
+  exact resolveF_rename hinj t _ v
 
 /-! ### `buildSymTab` -/
 
@@ -318,5 +350,53 @@ example :
     = .ok (.expr (.address 3 .none) (.numeric 1 none .none false) '+' .none true) := by
   rw [resolve_rename (by intro x y h; simpa using h)]
   rfl
+
+/-! ### names with an underscore or an at sign (batch 4, fix 4e31349: SYMBOL_REGEX and the operands of
+EXPRESSION_REGEX are `[\w@]+`)
+
+Before the repair a reference to a label containing `_` (not a symbol) and an expression over a label containing `@`
+(not an expression) were rejected, so a renaming to such names turned an accepted program into a rejected one. Both
+are accepted now. -/
+
+/-- executable check on an INCLUDE-free program through `back` (cf. `okPlainB` in `Props/C18.lean`) -/
+def plainCheckB (ls : List Str) (check : Assembly → Bool) : Bool :=
+  match parseLines ls with
+  | .ok p => p.all (fun s => !s.row.isInclude) && (match back p with | .ok A => check A | _ => false)
+  | _ => false
+
+theorem assemble_of_plainCheckB {fs : Files} {ls : List Str} {check : Assembly → Bool}
+    (h : plainCheckB ls check = true) : ∃ A, assemble fs ls = .ok A ∧ check A = true := by
+  unfold plainCheckB at h
+  split at h
+  · rename_i p hp
+    simp only [Bool.and_eq_true, List.all_eq_true, Bool.not_eq_true'] at h
+    rw [assemble_eq, front_plain hp h.1]
+    cases hb : back p with
+    | ok A => rw [hb] at h; exact ⟨A, by simp only [hb], h.2⟩
+    | _ => rw [hb] at h; simp at h
+  · cases h
+
+/-- `M_1 NOP / JMP M_1` assembles: the label with an underscore is a symbol, `JMP M_1` is `7E 0000` -/
+theorem C18_R2_underscore_label_fixed :
+    ∃ A, assemble [] (["M_1 NOP\n", " JMP M_1\n"].map String.toList) = .ok A ∧ A.image = some [0x12, 0x7E, 0, 0] := by
+  obtain ⟨A, hA, hc⟩ := assemble_of_plainCheckB (fs := []) (ls := ["M_1 NOP\n", " JMP M_1\n"].map String.toList)
+    (check := fun A => A.image == some [0x12, 0x7E, 0, 0]) (by decide +kernel)
+  exact ⟨A, hA, by simpa using hc⟩
+
+/-- `A@ NOP / JMP A@+1` assembles: `A@+1` is an expression over the label `A@` -/
+theorem C18_R2_at_expression_fixed :
+    ∃ A, assemble [] (["A@ NOP\n", " JMP A@+1\n"].map String.toList) = .ok A ∧ A.image = some [0x12, 0x7E, 0, 1] := by
+  obtain ⟨A, hA, hc⟩ := assemble_of_plainCheckB (fs := []) (ls := ["A@ NOP\n", " JMP A@+1\n"].map String.toList)
+    (check := fun A => A.image == some [0x12, 0x7E, 0, 1]) (by decide +kernel)
+  exact ⟨A, hA, by simpa using hc⟩
+
+/-- renaming `M` to `M_1` in `M NOP / JMP M` keeps the image -/
+theorem C18_R2_rename_underscore_fixed :
+    ∃ A B, assemble [] (["M NOP\n", " JMP M\n"].map String.toList) = .ok A ∧
+      assemble [] (["M_1 NOP\n", " JMP M_1\n"].map String.toList) = .ok B ∧ A.image = B.image := by
+  obtain ⟨A, hA, hc⟩ := assemble_of_plainCheckB (fs := []) (ls := ["M NOP\n", " JMP M\n"].map String.toList)
+    (check := fun A => A.image == some [0x12, 0x7E, 0, 0]) (by decide +kernel)
+  obtain ⟨B, hB, hB2⟩ := C18_R2_underscore_label_fixed
+  exact ⟨A, B, hA, hB, by rw [hB2]; simpa using hc⟩
 
 end CoCo.Props
